@@ -31,6 +31,9 @@ POOL = [
     ("{|x| x}", "none", None, ""), ("f1", "none", None, ""), ("{|y| y}", "none", None, ""), ("m{1}", "none", None, ""), ("<{|x| yield x}>", "none", None, ""),
     ("1.try", "none", None, ""), ("2.try", "none", None, ""), ('"a".try', "none", None, ""), ("E1", "none", None, ""), ("E2", "none", None, ""),
     ("E1.err", "none", None, ""), ("E2.err", "none", None, ""), ("1.try.nosuch.err", "none", None, ""),
+    # the two zeros (equal as numbers, different bit patterns), alone and inside containers
+    ("(-0.0)", "float", -0.0, "Float"), ("(0.0 * -1.0)", "float", -0.0, "Float"), ("R.new(-0.0)", "float", -0.0, "R"),
+    ("[0.0]", "none", None, ""), ("[-0.0]", "none", None, ""), ("{a: 0.0}", "none", None, ""), ("{a: -0.0}", "none", None, ""),
 ]
 OPS = [("eq", "=="), ("ne", "!="), ("lt", "<"), ("le", "<="), ("gt", ">"), ("ge", ">="), ("cmp", "<=>")]
 
